@@ -32,6 +32,93 @@ def run(chk: Check, proj: Project) -> None:
     s3(chk, proj, m)
     s4(chk, proj, m)
     s5(chk, proj, m)
+    s6_gating(chk, proj, m)
+    s7_frames(chk, proj, m)
+    s8_reader_not_wider(chk, proj, m)
+
+
+def placeholder_roles(f) -> dict:
+    """Rename-proof roles in render_dependencies: which flag / dependency variable belongs to which kind."""
+    R = _rd_roles(f)
+    orm = next((x for x in body_walk(f) if isinstance(x, ast.FunctionDef) and any(isinstance(n, ast.Nonlocal) for n in ast.walk(x))), None)
+    flags = {}
+    if orm is not None:
+        for st in [x for x in ast.walk(orm) if isinstance(x, ast.If)]:
+            kind = "css" if "CSS_PLACEHOLDER" in norm(st.test) else "js" if "JS_PLACEHOLDER" in norm(st.test) else None
+            if kind:
+                for a in st.body:
+                    if isinstance(a, ast.Assign) and isinstance(a.value, ast.Constant) and a.value.value is True and isinstance(a.targets[0], ast.Name):
+                        flags[kind] = a.targets[0].id
+    return {"flags": flags, "deps": {"js": R["js"], "css": R["css"]}, "work": R["work"]}
+
+
+def s6_gating(chk: Check, proj: Project, m) -> None:
+    chk.rule("S6", "tags are inserted at the default locations only in document mode, and a kind (css / js) is inserted there only if NO placeholder of that same kind was found; what is inserted is that kind's tags")
+    f = m.func("render_dependencies")
+    P = placeholder_roles(f)
+    fl, deps = P["flags"], P["deps"]
+    ic = calls(f, "_insert_js_css_to_default_locations")
+    if len(fl) != 2 or not ic or not all(deps.values()):
+        chk.undecided("S6", "dependencies:render_dependencies:default-insertion-roles", m.loc(f), f"placeholder flags / dependency variables not identified ({P})")
+        return
+    c = ic[0]
+    for kind in ("css", "js"):
+        v = kwarg(c, f"{kind}_content")
+        ok = isinstance(v, ast.IfExp) and norm(v.test) == fl[kind] and isinstance(v.body, ast.Constant) and v.body.value is None and norm(v.orelse) == f"{deps[kind]}.decode()"
+        chk.ob("S6", f"dependencies:render_dependencies:default-{kind}-iff-no-{kind}-placeholder", m.loc(c), ok,
+               f"{kind}_content = None if <{kind} placeholder found> else <{kind} tags>" if ok else
+               f"`{kind}_content={short(v) if v is not None else '?'}`: the {kind} tags for the default location are not suppressed by the {kind.upper()} placeholder flag `{fl[kind]}` / are not the {kind} tags `{deps[kind]}`: with exactly one kind of placeholder on the page one kind is delivered twice and the other never")
+    atoms = cond_atoms(enclosing_stmt(c))
+    doc = any(pol and t == "type == 'document'" for t, pol in atoms)
+    chk.ob("S6", "dependencies:render_dependencies:default-insertion-only-for-documents", m.loc(c), doc,
+           "insertion before </head> / </body> happens only for type == 'document'" if doc else
+           "tags are inserted before </head> / </body> also for fragments: a fragment that contains those end tags gets the tags spliced into its content (and the declaration script appended as well)")
+    both = any(pol and all(x in t for x in (f"not {fl['js']}", f"not {fl['css']}")) and " or " in t for t, pol in atoms)
+    chk.ob("S6", "dependencies:render_dependencies:default-insertion-if-a-kind-lacks-placeholder", m.loc(c), both, "entered when at least one kind has no placeholder")
+
+
+def s7_frames(chk: Check, proj: Project, m) -> None:
+    chk.rule("S7", "the positions of </head> / </body> are measured on the very string the insertions are applied to")
+    f = m.func("_insert_js_css_to_default_locations")
+    ins = _insertions(f)
+    fi = [c for c in calls(f, "finditer")]
+    if not ins or not fi:
+        chk.undecided("S7", "dependencies:_insert_js_css_to_default_locations:frames", m.loc(f), "finditer / insertions not found")
+        return
+    subject = fi[0].args[0] if fi[0].args else None
+    base = ins[0][1][0]
+    # the first insertion's base string must be (an alias of) the scanned string, unmodified
+    d = assignments(f, base)
+    alias_of = norm(d[0][1]) if d and d[0][1] is not None else base
+    ok = subject is not None and isinstance(subject, ast.Name) and (subject.id == base or subject.id == alias_of) and subject.id in params(f)
+    chk.ob("S7", "dependencies:_insert_js_css_to_default_locations:scan-subject-is-insertion-base", m.loc(fi[0]), ok,
+           f"match positions are taken on `{norm(subject) if subject is not None else '?'}`, the string the tags are inserted into" if ok else
+           f"the end tags are searched in `{short(subject) if subject is not None else '?'}` but the tags are inserted into `{alias_of}`: when the two differ in length before the match (e.g. `.lower()` of 'İ' grows by one character) the tags land inside the end tag")
+
+
+def s8_reader_not_wider(chk: Check, proj: Project, m) -> None:
+    chk.rule("S8", "PLACEHOLDER_REGEX matches nothing but the library's placeholders with `data-djc-*=\"\"` attributes (language inclusion in a tolerant closure of what the writer emits)")
+    from ..regexlang import Lang, included
+    from .markers import compiled_regex
+
+    pat, fl, node = compiled_regex(proj, "dependencies", "PLACEHOLDER_REGEX")
+    refs = []
+    for cname, tail in (("CSS_DEPENDENCY_PLACEHOLDER", "/?>"), ("JS_DEPENDENCY_PLACEHOLDER", None)):
+        okc, base = proj.try_fold(m, m.global_value(cname))
+        if not okc:
+            raise AnalysisError(f"{cname} not a constant")
+        gt = base.index(">")
+        import re as _re
+
+        refs.append(_re.escape(base[:gt]) + r'(?: data-djc-[a-z]+-\w+="")*' + (tail if tail else _re.escape(base[gt:])))
+    ref = "|".join(refs)
+    ref_b = ref.encode() if isinstance(pat, bytes) else ref
+    ok, wit = included(Lang(pat, fl), Lang(ref_b, 0))
+    chk.paths += 1
+    chk.ob("S8", "dependencies:PLACEHOLDER_REGEX:not-wider-than-writer", m.loc(node), ok,
+           "every string PLACEHOLDER_REGEX matches is a placeholder tag with only data-djc-* attributes" if ok else
+           f"PLACEHOLDER_REGEX also matches {wit!r}, which the library never writes: an author's own tag that merely carries a placeholder name (plus other attributes) is deleted / replaced and suppresses the default insertion",
+           detail={"reference": ref, "witness": wit})
 
 
 def _insertions(f) -> List[Tuple[ast.Assign, str, str, str]]:
